@@ -13,8 +13,7 @@
 (* GmpLayout is the transcription of printf/doprnt.c (flag parsing) and     *)
 (* printf/doprnti.c (__gmp_doprnt_integer).  The model checks               *)
 (* GmpLayout = CPrintf over the whole flag x width x precision x conversion *)
-(* x value product, except the one documented deviation ('#' with           *)
-(* precision 0 on a zero value).                                            *)
+(* x value product (no exception), also with '*' arguments and a bare '.'. *)
 (***************************************************************************)
 EXTENDS Naturals, Integers, Sequences, TLC, BigZ
 RECURSIVE Rep(_, _)
@@ -53,15 +52,14 @@ ParseFlags(fl, i, p) ==      \* p = [sign, justify, fill, showbase]
              [] c = " " -> IF p.sign = "+" THEN p ELSE [p EXCEPT !.sign = " "]            \* doprnt.c: '+' wins over ' '
              [] c = "-" -> [p EXCEPT !.justify = "left", !.fill = " "]                   \* '-' overrides '0'
              [] c = "0" -> IF p.justify = "left" THEN p ELSE [p EXCEPT !.fill = "0", !.justify = "internal"])
-GmpLayout(fl, width, prec, conv, v) ==
-  LET p0 == ParseFlags(fl, 1, [sign |-> "", justify |-> "right", fill |-> " ", showbase |-> FALSE])
-      s0 == DigStr(ZAbs(v), conv)
+GmpLayoutP(p0, width, prec, conv, v) ==
+  LET s0 == DigStr(ZAbs(v), conv)
       sign == IF ZIsNeg(v) THEN "-" ELSE p0.sign
       s  == IF s0 = "0" /\ prec = 0 THEN "" ELSE s0            \* explicit precision 0: nothing for a 0 value
       zeros == IF prec - Len(s) > 0 THEN prec - Len(s) ELSE 0
       sb0 == IF ~p0.showbase THEN "" ELSE IF conv = "x" THEN "0x" ELSE IF conv = "X" THEN "0X" ELSE IF conv = "o" THEN "0" ELSE ""
-      sb1 == IF s # "" /\ SubSeq(s, 1, 1) = "0" THEN "" ELSE sb0   \* SHOWBASE_NONZERO, tested AFTER the precision-0 strip: the documented
-                                                               \* deviation ('#' with precision 0 on a zero value still shows the prefix)
+      sb1 == IF (s # "" /\ SubSeq(s, 1, 1) = "0") \/ (s = "" /\ conv # "o") THEN "" ELSE sb0   \* SHOWBASE_NONZERO: no 0x/0X prefix on a zero value, also when
+                                                               \* precision 0 has removed its digit (fix F-C18-5); for o the '#' still forces one "0" (C99)
       sb  == IF conv = "o" /\ zeros > 0 THEN "" ELSE sb1       \* precision already forces a leading zero
       \* with a precision the 0 flag is ignored for integer conversions
       fill == IF prec >= 0 THEN " " ELSE p0.fill
@@ -71,8 +69,30 @@ GmpLayout(fl, width, prec, conv, v) ==
   IN (IF just = "right" THEN Rep(fill, justlen) ELSE "") \o sign \o sb \o Rep("0", zeros)
      \o (IF just = "internal" THEN Rep(fill, justlen) ELSE "") \o s \o (IF just = "left" THEN Rep(fill, justlen) ELSE "")
 
+ParsedFlags(fl) == ParseFlags(fl, 1, [sign |-> "", justify |-> "right", fill |-> " ", showbase |-> FALSE])
+GmpLayout(fl, width, prec, conv, v) == GmpLayoutP(ParsedFlags(fl), width, prec, conv, v)
+
+(* ---- width and precision given as '*' arguments, and the bare '.' ----                                                                *)
+(* Codes: width  -1 none | n >= 0 literal | 1000+n '*' with argument n | 2000+n '*' with argument -n                                    *)
+(*        prec   -1 none | n >= 0 literal | 1000+n '*' with argument n | 2000+n '*' with argument -n (n > 0) | 3000 a bare '.'            *)
+(* C99 7.19.6.1p5: "a negative field width argument is taken as a - flag followed by a positive field width. A negative precision        *)
+(* argument is taken as if the precision were omitted."  p4: "if only the period is specified, the precision is taken as zero."          *)
+(* The manual: width and precision "can be given ... as a * to take an extra parameter of type int, the same as the standard printf";   *)
+(* "the precision field has it's usual meaning for integer Z".                                                                           *)
+WidthOf(wc) == IF wc >= 2000 THEN wc - 2000 ELSE IF wc >= 1000 THEN wc - 1000 ELSE wc
+PrecOf(pc) == IF pc = 3000 THEN 0 ELSE IF pc >= 2000 THEN -1 ELSE IF pc >= 1000 THEN pc - 1000 ELSE pc
+CPrintfX(f, wc, pc, conv, v) == CPrintf(IF wc >= 2000 THEN [f EXCEPT !.minus = TRUE] ELSE f, WidthOf(wc), PrecOf(pc), conv, v)
+(* doprnt.c: the '*' of a width is met after the flags: a negative argument sets left justification (and, like the '-' flag, cancels a     *)
+(* '0' fill: fix F-C18-6); a negative precision argument restores "no precision" (fix F-C18-7); a bare '.' is precision 0 for the         *)
+(* integer conversions (fix F-C18-8)                                                                                                    *)
+GmpLayoutX(fl, wc, pc, conv, v) ==
+  LET p0 == ParsedFlags(fl)
+      p1 == IF wc >= 2000 THEN [p0 EXCEPT !.justify = "left", !.fill = " "] ELSE p0
+  IN GmpLayoutP(p1, WidthOf(wc), PrecOf(pc), conv, v)
+
 FlagRec(fl) == [minus |-> \E i \in DOMAIN fl : fl[i] = "-", plus |-> \E i \in DOMAIN fl : fl[i] = "+", space |-> \E i \in DOMAIN fl : fl[i] = " ",
                 hash |-> \E i \in DOMAIN fl : fl[i] = "#", zero |-> \E i \in DOMAIN fl : fl[i] = "0"]
-(* MPIR's documented deviation: '#' together with precision 0 on a zero value *)
-DocumentedDeviation(fl, prec, v) == v = "0" /\ prec = 0 /\ FlagRec(fl).hash
+(* (an earlier version of this module exempted '#' with precision 0 on a zero value as a "documented deviation"; neither the manual nor the
+   property documents it -- "%#.0Zx" of 0 printed "0x" where C prints nothing -- so the exemption is gone and the tree was repaired: F-C18-5) *)
+DocumentedDeviation(fl, prec, v) == FALSE
 =============================================================================
